@@ -15,6 +15,7 @@ Step(e) ==
     \/ e.op = "add" /\ AddHandler(e.id, e.sw, e.state, e.ms, e.nested)
     \/ e.op = "remove" /\ RemoveHandler(e.id, e.nested)
     \/ e.op = "tfire" /\ TFire(e.id, e.rm) /\ now = e.t
+    \/ e.op = "mute" /\ SetMute(e.sw, e.m)
     \/ e.op = "tick" /\ Tick
     \* end of a loop run: nothing overdue, all configured events delivered, queries truthful
     \/ /\ e.op = "sync" /\ ~incall /\ ~Overdue /\ pev = {} /\ UNCHANGED vars
